@@ -1,10 +1,32 @@
 """C01 - see Props/C01.v and monitors.monitor_c01."""
 import brokercheck, monitors
+import vlib
+
+
+def _sub_replay(path):
+    """replays of the component checks this check also runs"""
+    import json
+    k = json.load(open(path)).get("kind", "")
+    if k == "queueswap-case":
+        import C19
+        return C19.replay(path)
+    if k == "safequeue-ops":
+        import C03
+        return C03.replay(path)
+    if k == "msg-ops":
+        import stores_lib
+        return stores_lib.replay_msg(json.load(open(path)))
+    return None
 
 
 def run(res):
     brokercheck.run(res, "C01", ["Props/C01.v", "Props/C01_history.v"], monitors.monitor_c01)
+    # the ready list of the model is the list the sharded ring refines: a ring that loses an element loses a message
+    vlib.also_run(res, "C03", "run_ring", why="safequeue/safequeue.go is among C01's anchors: the ring must be the FIFO list the broker model uses")
 
 
 def replay(path):
+    r = _sub_replay(path)
+    if r is not None:
+        return r
     return brokercheck.replay(path, monitors.monitor_c01)
